@@ -303,6 +303,48 @@ func c15SpecialList() []c15Special {
 			"主.zn": "导入“乙”\n如何外？\n    以V遍历【1，2】：\n        （乙险：V）\n    输出0\n    拦截异常：\n        输出-1\n（显示：（外））\n（显示：（乙总））\n每当真：\n    （显示：（外））\n    结束循环\n（显示：（乙总））\n输出1",
 			"乙.zn": "如何乙助？\n    输出203\n如何乙总？\n    输出（乙助）\n如何乙险？\n    输入参\n    抛出异常：“险”！",
 		}, zn.Canon(float64(-1)) + " | " + zn.Canon(float64(203)) + " | " + zn.Canon(float64(-1)) + " | " + zn.Canon(float64(203)), 0},
+		// one file names one module in two import statements with different lists: both are carried out
+		{"two-selective-imports-of-one-module", map[string]string{
+			"主.zn": "导入“丙”之丙一\n导入“丙”之丙二\n（显示：（丙一） + （丙二））\n输出1",
+			"丙.zn": "（显示：“丙”）\n如何丙一？\n    输出10\n如何丙二？\n    输出11",
+		}, s("丙") + " | " + zn.Canon(float64(21)), 0},
+		{"two-selective-imports-separated-method-then-type", map[string]string{
+			"主.zn": "导入“丙”之丙一\n导入“丁”\n导入“丙”之丙型\n（显示：（丙一） + （丁一） + （新建丙型）之P）\n输出1",
+			"丙.zn": "（显示：“丙”）\n如何丙一？\n    输出10\n定义丙型：\n    其P = 5",
+			"丁.zn": "（显示：“丁”）\n如何丁一？\n    输出100",
+		}, s("丙") + " | " + s("丁") + " | " + zn.Canon(float64(115)), 0},
+		{"two-selective-imports-in-a-module", map[string]string{
+			"主.zn": "导入“甲”\n（显示：（甲法））\n输出1",
+			"甲.zn": "导入“丙”之丙二\n导入“丙”之丙一\n如何甲法？\n    输出（丙一） * （丙二）",
+			"丙.zn": "（显示：“丙”）\n如何丙一？\n    输出10\n如何丙二？\n    输出11",
+		}, s("丙") + " | " + zn.Canon(float64(110)), 0},
+		{"two-selective-library-imports", map[string]string{
+			"主.zn": "导入《@JSON》之解析JSON\n导入《@JSON》之生成JSON\n（显示：（生成JSON：（解析JSON：“{}”）））\n输出1",
+		}, s("{}"), 0},
+		// the constructor of an imported type runs in the module that defines the type: it sees that
+		// module's methods, types and imports, whatever the module that writes 新建 sees
+		{"constructor-uses-unlisted-sibling-method", map[string]string{
+			"主.zn": "导入“丙”之点\n令物 = （新建点：3、4）\n（显示：物之和）\n输出1",
+			"丙.zn": "如何求和？\n    输入甲、乙\n    输出甲 + 乙 + 100\n定义点：\n    其和 = 0\n如何新建点？\n    输入甲、乙\n    其和 = （求和：甲、乙）",
+		}, zn.Canon(float64(107)), 0},
+		{"constructor-not-misled-by-importer-method", map[string]string{
+			"主.zn": "导入“丙”之点\n如何求和？\n    输入甲、乙\n    输出甲 + 乙 + 5\n令物 = （新建点：3、4）\n（显示：物之和、（求和：3、4））\n输出1",
+			"丙.zn": "如何求和？\n    输入甲、乙\n    输出甲 + 乙 + 100\n定义点：\n    其和 = 0\n如何新建点？\n    输入甲、乙\n    其和 = （求和：甲、乙）",
+		}, zn.Canon(float64(107)) + " " + zn.Canon(float64(12)), 0},
+		{"constructor-uses-its-modules-own-import", map[string]string{
+			"主.zn": "导入“丙”\n令物 = （新建点：3）\n（显示：物之和）\n输出1",
+			"丙.zn": "导入“丁”\n定义点：\n    其和 = 0\n如何新建点？\n    输入甲\n    其和 = （丁一） + 甲",
+			"丁.zn": "如何丁一？\n    输出100",
+		}, zn.Canon(float64(103)), 0},
+		{"constructor-creates-unlisted-sibling-type", map[string]string{
+			"主.zn": "导入“丙”之线\n令物 = （新建线：3）\n（显示：物之端之横）\n输出1",
+			"丙.zn": "定义点：\n    其横 = 0\n如何新建点？\n    输入甲\n    其横 = 甲 * 2\n定义线：\n    其端 = 空\n如何新建线？\n    输入甲\n    其端 = （新建点：甲）",
+		}, zn.Canon(float64(6)), 0},
+		{"constructor-called-from-a-middle-module", map[string]string{
+			"主.zn": "导入“甲”\n（显示：（甲造））\n输出1",
+			"甲.zn": "导入“丙”之点\n如何甲造？\n    输出（新建点：3、4）之和",
+			"丙.zn": "如何求和？\n    输入甲、乙\n    输出甲 + 乙 + 100\n定义点：\n    其和 = 0\n如何新建点？\n    输入甲、乙\n    其和 = （求和：甲、乙）",
+		}, zn.Canon(float64(107)), 0},
 		{"diamond-runs-once", map[string]string{
 			"主.zn": "导入“甲”\n导入“乙”\n（显示：“main”）\n输出（甲法） + （乙法）",
 			"甲.zn": "导入“丙”\n（显示：“甲”）\n如何甲法？\n    输出（丙法）",
